@@ -92,25 +92,6 @@ def showData (proj : List Nat) (f : List Nat → Rat) : String := showND (tabula
 def showMask (proj : List Nat) (m : List Nat → Bool) : String :=
   showND (tabulate (shapeOf proj) fun idx => if m idx then 1 else 0)
 
-/-- no-subsampling pass over the VCF lines: `none` = KeyError -/
-def ddVcf (filt : Bool) (popIds : List Nat) (sites : List Site) : Option (List Snp) := do
-  let entries ← (sites.filter (siteKept filt)).mapM fun st => (callsFor st.inds popIds).map (siteSnp st)
-  some (mkDict entries)
-
-/-- subsampling pass: threads the recorded draws through the lines -/
-def ddSub (filt : Bool) (want : List (Nat × Nat)) (popIds : List Nat) :
-    List Site → List (List Nat) → List Snp → Option (List Snp × List (List Nat))
-  | [], draws, acc => some (mkDict acc, draws)
-  | st :: rest, draws, acc =>
-      if !siteKept filt st then ddSub filt want popIds rest draws acc
-      else
-        match subsampleLoop st.inds want (popOrder st.inds want) draws [] with
-        | (none, left) => ddSub filt want popIds rest left acc
-        | (some calls, left) =>
-            match popIds.mapM (fun p => (calls.find? (·.1 == p)).map (·.2)) with
-            | none => none
-            | some cl => ddSub filt want popIds rest left (acc ++ [siteSnp st cl])
-
 def lengthsOk (proj : List Nat) (snps : List Snp) : Bool := snps.all fun s => s.calls.length == proj.length
 
 /-- the one-population spectrum as a function of the derived count (`spectrumAt pol [n] snps [i]`, grouped once) -/
